@@ -86,4 +86,10 @@ theorem resendMu_congr {s s' : C14.Flush.St} (h : s'.f.sh = s.f.sh ∧ s'.s.sh =
   unfold resendMu shTotal
   rw [h.1, h.2.1, h.2.2.1, h.2.2.2]
 
+theorem robEvs_append (c : Cfg) (a b : List CEv) (σ : Comp) :
+    robEvs c σ (a ++ b) = robEvs c σ a ++ robEvs c (a.foldl (cstep c) σ) b := by
+  induction a generalizing σ with
+  | nil => rfl
+  | cons e es ih => simp [robEvs, ih, List.append_assoc]
+
 end C15.Cu
